@@ -605,12 +605,16 @@ pub fn families(tier: Tier, for_c11: bool) -> Vec<Family> {
         let n3 = tier.pick(4, 6);
         fams.push(Family { name: "raw/long/bound", setups: programs(&alpha_plain, n3).into_iter().filter(|p| p.len() == n3).map(|p| mk(p, WakerPolicy::Choose, 0, 0, None, false, false)).collect(), bound: Some(tier.pick(1, 2)), cap: 50_000 });
         // abort programs
-        fams.push(Family { name: "raw/abort", setups: programs(&alpha_abort, tier.pick(3, 4)).into_iter().filter(|p| p.contains(&POp::A)).map(|p| mk(p, WakerPolicy::Choose, 1, 1, None, false, false)).collect(), bound: Some(2), cap: 200_000 });
+        fams.push(Family { name: "raw/abort", setups: programs(&alpha_abort, tier.pick(3, 4)).into_iter().filter(|p| p.contains(&POp::A)).map(|p| mk(p, WakerPolicy::Choose, 1, 1, None, false, false)).collect(), bound: tier.pick(Some(2), None), cap: 200_000 });
+        if tier == Tier::Thorough {
+            fams.push(Family { name: "raw/len5/bound3", setups: programs(&alpha_plain, 5).into_iter().filter(|p| p.len() == 5).map(|p| mk(p, WakerPolicy::Choose, 0, 0, None, false, false)).collect(), bound: Some(3), cap: 100_000 });
+            fams.push(Family { name: "raw/env-choices/bound3", setups: programs(&alpha_plain, 3).into_iter().map(|p| mk(p, WakerPolicy::Choose, 2, 3, None, false, false)).collect(), bound: Some(3), cap: 400_000 });
+        }
         // hint sampling
         fams.push(Family { name: "raw/hints", setups: programs(&alpha_abort, tier.pick(2, 3)).into_iter().map(|p| mk(p, WakerPolicy::Choose, 0, 0, None, false, true)).collect(), bound: Some(2), cap: 200_000 });
         // gzip writer: every operation is several critical sections
         let galpha = [POp::W(5), POp::F];
-        fams.push(Family { name: "gzip/bound", setups: programs(&galpha, tier.pick(2, 3)).into_iter().map(|p| mk(p, WakerPolicy::Choose, 1, 1, None, true, false)).collect(), bound: Some(tier.pick(1, 2)), cap: 100_000 });
+        fams.push(Family { name: "gzip/bound", setups: programs(&galpha, tier.pick(2, 3)).into_iter().map(|p| mk(p, WakerPolicy::Choose, 1, 1, None, true, false)).collect(), bound: Some(tier.pick(1, 3)), cap: 400_000 });
     } else {
         fams.push(Family { name: "raw/abort", setups: programs(&alpha_abort, tier.pick(3, 4)).into_iter().filter(|p| p.contains(&POp::A)).map(|p| mk(p, WakerPolicy::Choose, 1, 1, None, false, true)).collect(), bound: Some(2), cap: 200_000 });
         let mut v = Vec::new();
